@@ -2,7 +2,9 @@
    Unrecognised code yields *Unknown / K_OTHER / f_shapes_ok = false, which breaks C08_facts_pinned. *)
 From Coq Require Import ZArith QArith List Bool String.
 Import ListNotations.
-From SbmlExp Require Import SbmlMath.
+From SbmlExp Require Import SbmlMath SbmlSession.
+(* src/mxlpy/sbml/_import.py: read() and import_from_path *)
+Definition gen_import_facts : import_facts := mkImportFacts ReadParseAlways LoaderCompileSource true.
 Definition gen_facts : facts := mkFacts
   [("sqrt"%string, K_FUNCTION_ROOT); ("remainder"%string, K_FUNCTION_REM); ("abs"%string, K_FUNCTION_ABS); ("ceil"%string, K_FUNCTION_CEILING); ("sin"%string, K_FUNCTION_SIN); ("cos"%string, K_FUNCTION_COS); ("tan"%string, K_FUNCTION_TAN); ("arcsin"%string, K_FUNCTION_ARCSIN); ("arccos"%string, K_FUNCTION_ARCCOS); ("arctan"%string, K_FUNCTION_ARCTAN); ("sinh"%string, K_FUNCTION_SINH); ("cosh"%string, K_FUNCTION_COSH); ("tanh"%string, K_FUNCTION_TANH); ("arcsinh"%string, K_FUNCTION_ARCSINH); ("arccosh"%string, K_FUNCTION_ARCCOSH); ("arctanh"%string, K_FUNCTION_ARCTANH); ("log"%string, K_FUNCTION_LN); ("log10"%string, K_FUNCTION_LOG)]
   [("power"%string, K_POWER)]
@@ -15,4 +17,4 @@ Definition gen_facts : facts := mkFacts
   [(K_FUNCTION_LOG, 10%Z)]
   ["math"%string; "np"%string; "numpy"%string]
   [("e"%string, ME); ("pi"%string, MPi); ("inf"%string, MInf); ("nan"%string, MNan)]
-  Product NsSignAbs IaSetSymbol true.
+  Product NsSignAbs IaSetSymbol RenSimultaneous RefCounted MathIds true.
